@@ -883,6 +883,36 @@ func (c *leafCtx) assign7(st *ast.AssignStmt, next func(string) string, ind stri
 		c.fail("unsupported assignment shape")
 		return "0"
 	}
+	if len(st.Lhs) == len(st.Rhs) && len(st.Lhs) > 1 && (st.Tok == token.DEFINE || st.Tok == token.ASSIGN) {
+		// a, b := x, y: all right-hand sides are evaluated before any assignment
+		var es, ts []string
+		for i, r := range st.Rhs {
+			want := ""
+			if id, ok := st.Lhs[i].(*ast.Ident); ok && st.Tok == token.ASSIGN {
+				want = c.vars[id.Name]
+			}
+			e, t := c.expr(r, want)
+			if t == "" {
+				t = want
+			}
+			if t == "" {
+				c.fail("parallel assignment of a value of unknown type")
+			}
+			es = append(es, e)
+			ts = append(ts, t)
+		}
+		pre := c.takeBinds(ind)
+		var ns []string
+		for i, l := range st.Lhs {
+			n, ok := declOrAssign(l, ts[i])
+			if !ok {
+				c.fail("unsupported assignment shape")
+				return "0"
+			}
+			ns = append(ns, n)
+		}
+		return pre + "let (" + strings.Join(ns, ", ") + ") := (" + strings.Join(es, ", ") + ")" + nl + next(ind)
+	}
 	if len(st.Lhs) != 1 || len(st.Rhs) != 1 {
 		c.fail("unsupported assignment shape")
 		return "0"
@@ -1999,7 +2029,165 @@ func (c *leafCtx) assignsTarget(fd *ast.FuncDecl, name string) bool {
 	return set[name]
 }
 
+// rangeSpec: a statement range inside a function, lifted into a function of its free variables.
+// The range starts at the statement that declares `from` and stops before the first call
+// statement on one of `stopBefore` (logging, the hand-over of the result); the statement that
+// follows the skipped log calls must be `<handOver>(<result>)`. The free variables cannot be typed
+// without a type checker: they are declared here, and a use at another type fails to compile in Lean.
+type rangeSpec struct {
+	from       string
+	stopBefore []string
+	handOver   string // "adj.Do"
+	params     [][2]string
+	result     [2]string
+}
+
+var ranges = map[string]rangeSpec{
+	"sync_Run_correction": {
+		from: "refClkCorr", stopBefore: []string{"log", "adj"}, handOver: "adj.Do",
+		params: [][2]string{{"refClkOff", "Int64"}, {"peerClkOff", "Int64"}, {"refClkMaxCorr", "F64"}, {"peerClkMaxCorr", "F64"},
+			{"cfg", "S_Config"}, {"refClks", "L_Opaque"}, {"peerClks", "L_Opaque"}},
+		result: [2]string{"corr", "Int64"},
+	},
+}
+
+func callRecv(s ast.Stmt) string {
+	es, ok := s.(*ast.ExprStmt)
+	if !ok {
+		return ""
+	}
+	ce, ok := es.X.(*ast.CallExpr)
+	if !ok {
+		return ""
+	}
+	f, ok := ce.Fun.(*ast.SelectorExpr)
+	if !ok {
+		return ""
+	}
+	if id, ok := f.X.(*ast.Ident); ok {
+		return id.Name
+	}
+	return ""
+}
+
+// findRange: the statements of the range, or nil
+func findRange(body *ast.BlockStmt, rs rangeSpec) ([]ast.Stmt, string) {
+	var found []ast.Stmt
+	problem := "statement range not found"
+	ast.Inspect(body, func(n ast.Node) bool {
+		bs, ok := n.(*ast.BlockStmt)
+		if !ok || found != nil {
+			return found == nil
+		}
+		for i, s := range bs.List {
+			as, ok := s.(*ast.AssignStmt)
+			if !ok || as.Tok != token.DEFINE {
+				continue
+			}
+			starts := false
+			for _, l := range as.Lhs {
+				if id, ok := l.(*ast.Ident); ok && id.Name == rs.from {
+					starts = true
+				}
+			}
+			if !starts {
+				continue
+			}
+			j := i
+			stop := func(s ast.Stmt) bool {
+				r := callRecv(s)
+				for _, x := range rs.stopBefore {
+					if r == x {
+						return true
+					}
+				}
+				return false
+			}
+			for j < len(bs.List) && !stop(bs.List[j]) {
+				j++
+			}
+			k := j
+			for k < len(bs.List) && callRecv(bs.List[k]) == "log" {
+				k++
+			}
+			ok2 := false
+			if k < len(bs.List) {
+				if es, isE := bs.List[k].(*ast.ExprStmt); isE {
+					if ce, isC := es.X.(*ast.CallExpr); isC && len(ce.Args) == 1 {
+						if f, isS := ce.Fun.(*ast.SelectorExpr); isS {
+							if id, isI := f.X.(*ast.Ident); isI && id.Name+"."+f.Sel.Name == rs.handOver {
+								if a, isA := ce.Args[0].(*ast.Ident); isA && a.Name == rs.result[0] {
+									ok2 = true
+								}
+							}
+						}
+					}
+				}
+			}
+			if !ok2 {
+				problem = "the range is not followed by " + rs.handOver + "(" + rs.result[0] + ")"
+				return false
+			}
+			found = bs.List[i:j]
+			return false
+		}
+		return true
+	})
+	return found, problem
+}
+
+func (c *leafCtx) translateRange7(ds *dirState, l leaf7Spec, fd *ast.FuncDecl, fset *token.FileSet, mode int, rs rangeSpec) (string, *leafInfo) {
+	c.gen7, c.mode = true, mode
+	c.ren, c.declDepth, c.sites, c.nsite = map[string]string{}, map[string]int{}, map[token.Pos]string{}, map[string]int{}
+	c.callbacks = map[string][]string{}
+	c.aliasOf = map[string]string{}
+	c.depth = 1
+	stmts, problem := findRange(fd.Body, rs)
+	if stmts == nil {
+		c.fail("%s", problem)
+		return "", nil
+	}
+	info := &leafInfo{lean: l.lean, mode: mode, nparams: len(rs.params), ret: rs.result[1]}
+	var params []string
+	for _, p := range rs.params {
+		if strings.HasPrefix(p[1], "S_") {
+			if _, ok := c.structs[strings.TrimPrefix(p[1], "S_")]; !ok {
+				c.fail("unknown struct type %s", p[1])
+				return "", nil
+			}
+			c.useStruct(strings.TrimPrefix(p[1], "S_"))
+		}
+		c.vars[p[0]] = p[1]
+		c.declDepth[p[0]] = 1
+		params = append(params, "("+leanName(p[0])+" : "+leanTypeName(p[1])+")")
+	}
+	c.rets = []string{rs.result[1]}
+	c.ret = rs.result[1]
+	c.rtInner = c.resultType7(c.ret)
+	body := c.seq(stmts, func(string) string {
+		if t, ok := c.vars[rs.result[0]]; !ok || t != rs.result[1] {
+			c.fail("the range does not define %s of type %s", rs.result[0], rs.result[1])
+			return "0"
+		}
+		return c.ok(c.result7(c.lname(rs.result[0])))
+	}, "  ")
+	if c.err != nil {
+		return "", nil
+	}
+	for _, e := range c.externs {
+		params = append(params, "("+e+")")
+	}
+	info.externs = append([]string{}, c.externs...)
+	first, last := fset.Position(stmts[0].Pos()), fset.Position(stmts[len(stmts)-1].End())
+	sig := "def " + l.lean + " " + strings.Join(params, " ") + " : " + c.wrapType(c.rtInner)
+	return fmt.Sprintf("/-- %s: %s, lines %d–%d (the statements from the declaration of %s up to the call of %s) -/\n%s :=\n  %s\n",
+		l.dir, l.fn, first.Line, last.Line, rs.from, rs.handOver, sig, body), info
+}
+
 func (c *leafCtx) translate7(ds *dirState, l leaf7Spec, fd *ast.FuncDecl, fset *token.FileSet, mode int) (string, *leafInfo) {
+	if rs, ok := ranges[l.lean]; ok {
+		return c.translateRange7(ds, l, fd, fset, mode, rs)
+	}
 	c.gen7, c.mode = true, mode
 	c.ren, c.declDepth, c.sites, c.nsite = map[string]string{}, map[string]int{}, map[token.Pos]string{}, map[string]int{}
 	c.callbacks = map[string][]string{}
@@ -2240,6 +2428,7 @@ var leaves7 = []leaf7Spec{
 	{"net/csptp", "DecodeRequestTLV", "csptp_DecodeRequestTLV", "LeafCsptp"},
 	{"net/csptp", "EncodeResponseTLV", "csptp_EncodeResponseTLV", "LeafCsptp"},
 	{"net/csptp", "DecodeResponseTLV", "csptp_DecodeResponseTLV", "LeafCsptp"},
+	{"core/sync", "Run", "sync_Run_correction", "LeafSync"},
 }
 
 func emitLeaves7(repo string, parsed map[string][]*ast.File, fset *token.FileSet, leafPath string) {
